@@ -416,7 +416,8 @@ def explore(ctx, sc, max_depth=None, state_cap=None, label=None,
                     if pfx:
                         seen[fp] = (init, history + [op])
                         next_frontier.append((init, history + [op], False, True))
-                        if len(samples) < 8 and len(history) >= 1:
+                        if len(samples) < 8 and (len(history) >= 1
+                                                 or len(samples) < 2):
                             samples.append(
                                 {"init": init, "history": history + [op]}
                             )
